@@ -1,0 +1,57 @@
+//! Verification hooks for the class reader (feature `verif`). Forwarding wrappers only.
+
+use std::io::Cursor;
+use anyhow::Result;
+use java_string::JavaString;
+use crate::tree::class::{ClassName, ObjClassName};
+use crate::tree::method::code::{Label, LabelRange, Loadable};
+use crate::visitor::method::code::CodeVisitor;
+use super::{CodeReadHelper, ClassRead};
+
+pub fn read_i16_as_branch_target_label(bytes: &[u8], opcode_pos: u16) -> Result<u16> {
+	Cursor::new(bytes).read_i16_as_branch_target_label(opcode_pos)
+}
+pub fn read_i32_as_branch_target_label(bytes: &[u8], opcode_pos: u16) -> Result<u16> {
+	Cursor::new(bytes).read_i32_as_branch_target_label(opcode_pos)
+}
+/// Runs the reader's switch alignment from stream position `pos`; returns the position afterwards.
+pub fn align_to_4_byte_boundary(bytes: &[u8], pos: u64) -> Result<u64> {
+	let mut r = Cursor::new(bytes);
+	r.set_position(pos);
+	super::align_to_4_byte_boundary(&mut r)?;
+	r.marker()
+}
+
+pub struct Labels(super::labels::Labels);
+impl Labels {
+	pub fn new(code_length: u16) -> Labels { Labels(super::labels::Labels::new(code_length)) }
+	pub fn create(&mut self, pc: u16) -> Result<()> { self.0.create(pc) }
+	pub fn get_or_create(&mut self, pc: u16) -> Result<Label> { self.0.get_or_create(pc) }
+	pub fn get_or_create_range(&mut self, start_pc: u16, length: u16) -> Result<LabelRange> { self.0.get_or_create_range(start_pc, length) }
+	pub fn try_get(&self, pc: u16) -> Result<Label> { self.0.try_get(pc) }
+	pub fn get(&self, pc: u16) -> Option<Label> { self.0.get(pc) }
+}
+
+pub struct Pool(super::pool::PoolRead);
+impl Pool {
+	/// Reads `constant_pool_count` and the pool entries from `bytes`; also returns the number of bytes consumed.
+	pub fn read(bytes: &[u8]) -> Result<(Pool, u64)> {
+		let mut r = Cursor::new(bytes);
+		let pool = super::pool::PoolRead::read(&mut r)?;
+		Ok((Pool(pool), r.position()))
+	}
+	pub fn get_utf8(&self, index: u16) -> Result<JavaString> { self.0.get_utf8(index) }
+	pub fn get_class(&self, index: u16) -> Result<ClassName> { self.0.get_class(index) }
+	pub fn get_obj_class(&self, index: u16) -> Result<ObjClassName> { self.0.get_obj_class(index) }
+	pub fn get_integer(&self, index: u16) -> Result<i32> { self.0.get_integer(index) }
+	pub fn get_long(&self, index: u16) -> Result<i64> { self.0.get_long(index) }
+	pub fn get_float(&self, index: u16) -> Result<f32> { self.0.get_float(index) }
+	pub fn get_double(&self, index: u16) -> Result<f64> { self.0.get_double(index) }
+	pub fn get_loadable(&self, index: u16) -> Result<Loadable> { self.0.get_loadable(index, &None) }
+	pub fn get_optional_class(&self, index: u16) -> Result<Option<ClassName>> { self.0.get_optional(index, super::pool::PoolRead::get_class) }
+}
+
+/// Runs the reader's `read_code` on the body of a `Code` attribute (starting at `max_stack`).
+pub fn read_code<C: CodeVisitor>(bytes: &[u8], code_visitor: C, pool: &Pool) -> Result<C> {
+	super::read_code(&mut Cursor::new(bytes), code_visitor, &pool.0, &None)
+}
